@@ -8,8 +8,9 @@ export GOPROXY=off GOSUMDB=off GOTOOLCHAIN=local GOFLAGS=-mod=mod; unset GOWORK
 REPO="${ORB_REPO:-/repo}"
 FILTER="${1:-}"
 ./run.sh build || exit 2
+OC="${ORBCHECK_BIN:-}"; if [ -z "$OC" ]; then OC=$(mktemp /tmp/orbcheck-snap.XXXXXX); cp bin/orbcheck "$OC"; chmod 755 "$OC"; SNAP="$OC"; fi; export OC
 WORK=$(mktemp -d /tmp/orbmut.XXXXXX)
-trap 'rm -rf "$WORK"' EXIT
+trap 'rm -rf "$WORK" "${SNAP:-}"' EXIT
 fail=0; n=0; skipped=0
 run_one() {
   local name="$1" prop="$2" expect="$3" silent="$4"
@@ -25,18 +26,18 @@ run_one() {
     echo "SKIP $name (mutant does not compile: $(head -c 200 "$d/.builderr"))"; rm -rf "$d"; return 3
   fi
   if [ "$silent" = "true" ]; then
-    out=$(bin/orbcheck -repo "$d" -verif "$(pwd)" -prop "$prop" -no-evidence 2>&1); rc=$?
+    out=$("$OC" -repo "$d" -verif "$(pwd)" -prop "$prop" -no-evidence 2>&1); rc=$?
     rm -rf "$d"
     if [ $rc -eq 0 ]; then echo "OK   $name: $prop silent on behaviour-preserving rewrite"; return 0; fi
     echo "FAIL $name: $prop raised an alarm on a behaviour-preserving rewrite"; echo "$out" | grep -A2 VIOLATION | head -12; return 1
   fi
   if [ "$expect" = "ANY" ]; then
-    out=$(bin/orbcheck -repo "$d" -verif "$(pwd)" -prop "$prop" -no-evidence 2>&1); rc=$?
+    out=$("$OC" -repo "$d" -verif "$(pwd)" -prop "$prop" -no-evidence 2>&1); rc=$?
     rm -rf "$d"
     if [ $rc -eq 1 ]; then echo "OK   $name: $(echo "$out" | grep -A1 '^VIOLATION' | grep kind= | head -1 | cut -c1-200)"; return 0; fi
     echo "FAIL $name: $prop no longer reports the seeded change"; return 1
   fi
-  out=$(bin/orbcheck -repo "$d" -verif "$(pwd)" -prop "$prop" -expect "$expect" -no-evidence 2>&1); rc=$?
+  out=$("$OC" -repo "$d" -verif "$(pwd)" -prop "$prop" -expect "$expect" -no-evidence 2>&1); rc=$?
   rm -rf "$d"
   if [ $rc -eq 0 ]; then echo "OK   $name: $(echo "$out" | grep FIRED | head -1 | cut -c1-220)"; return 0; fi
   echo "FAIL $name: $prop/$expect stayed silent"; echo "$out" | head -5; return 1
